@@ -271,7 +271,10 @@ def dx_config(cfg, pts):
                 prev = np.array([g[0] + 0.375 * (g[1] - g[0]) for g in grids])
 
                 def run():
-                    t.interpolate(prev.reshape(1, -1).copy())
+                    # 'gradient_same': the value at the same point was computed before, without
+                    # asking for derivatives
+                    first = P[[i]] if mode == 'gradient_same' else prev.reshape(1, -1)
+                    t.interpolate(first.copy())
                     return t.gradient(P[[i]].copy())
                 r = guarded(run)
                 if isinstance(r, _Raised):
@@ -880,7 +883,7 @@ def check_group(case):
             for tkind in ('poly', 'gen'):
                 pts, _ = dx_points(grids, tkind == 'poly', level)
                 if api == 'interp':
-                    modes = ('batch', 'single', 'gradient')
+                    modes = ('batch', 'single', 'gradient', 'gradient_same')
                 else:
                     # (compute_totals per call dominates: one vec_size per table kind)
                     modes = ('vec3',) if tkind == 'poly' else ('vec1',)
